@@ -11,7 +11,7 @@ def gen_case(g, prop):
     st = dict(recursive=g.random() < 0.7, auto_exclude=g.random() < 0.6, prefix=g.choice([None, None, 'PFX', 'p.q']),
               sep='.', ext_titles=False, ext_modules=False, headers=None, cfg=None)
     pats = []
-    output = g.choice(['abs', 'abs', 'rel', 'nested'])
+    output = g.choice(['abs', 'abs', 'rel', 'nested'] + (['nested', 'nested'] if prop == 'C17' else []))
     if prop in ('C13', 'C14'):
         pats = [g.choice(T.PATTERNS) for _ in range(g.choice([0, 0, 1, 2, 3]))]
     if prop == 'C14': st['sep'] = g.choice(['.', '.', '/', '::', '-', 'sub'])     # the title of the top index is the prefix under every separator
@@ -92,15 +92,35 @@ def gen_case(g, prop):
         inp = dict(kind='file', name=f, content=T.file_content(g, f), spelled=g.choice(['abs', 'rel']))
         if output == 'nested': output = 'abs'
     if inp.get('spelled') in ('dot', 'updir') and output == 'rel': output = 'abs'   # a relative output would resolve against the input directory
+    if prop == 'C12' and output in ('abs', 'rel') and inp.get('spelled') in ('abs', 'rel') and g.random() < 0.2: inp['via_link'] = True
+    if prop == 'C14' and inp['kind'] == 'dir' and output == 'abs' and inp.get('spelled', 'abs') == 'abs' and g.random() < 0.3:
+        # anchored patterns that spell every CMake file of one sub-directory the way it is reached from the directory the command is started
+        # in (the parent of the input): patterns are matched against absolute paths, so they match nothing -- the sub-directory keeps its
+        # pages, its index and its toctree entry
+        subs = []
+        def with_cmake(ch, rel):
+            for c in ch:
+                if 'children' in c and not c.get('dirlink'):
+                    fs = [f['name'] for f in c['children'] if 'children' not in f and f['name'].lower().endswith('.cmake') and not set(f['name']) & set('\\*?[]!#')]
+                    if fs and not set(c['name']) & set('\\*?[]!#'): subs.append((rel + [c['name']], fs))
+                    with_cmake(c['children'], rel + [c['name']])
+        with_cmake(children, [])
+        if subs and not set(inp['name']) & set('\\*?[]!#'):
+            rel, fs = g.choice(subs)
+            pats += ['/'.join([inp['name']] + rel + [f]) for f in fs]
+            st['auto_exclude'] = True; st['recursive'] = True
     case = dict(inputs=[inp], settings=st, patterns=pats, output=output)
-    if output == 'nested' and inp['kind'] == 'dir' and g.random() < 0.6:
+    if prop == 'C14' and any(pt.startswith(inp['name'] + '/') for pt in pats): case['run_from'] = 'parent'
+    if output == 'nested' and inp['kind'] == 'dir' and g.random() < (0.9 if prop == 'C17' else 0.6):
         # the output directory inside the input tree is named like the beginning of a sibling directory (doc next to doctest/, docs/):
         # comparing the two paths character by character instead of component by component would mix them up
         subs = [c['name'] for c in children if 'children' in c and len(c['name']) >= 2]
         taken = {c['name'].lower() for c in children}
         if subs:
             d = g.choice(subs); cand = d[:g.randint(1, len(d) - 1)]
-            if cand.lower() not in taken and cand not in ('.', '..'): case['nested_name'] = cand
+            if cand.lower() not in taken and cand not in ('.', '..'):
+                case['nested_name'] = cand
+                if prop == 'C17': st['recursive'] = True      # so that the sibling is walked at all
     elif output == 'nested' and inp['kind'] == 'dir':
         # ... or exactly like a directory that exists DEEPER in the tree (docs/ below the input, src/docs/ with CMake files): whatever is
         # done to keep CMinx away from its own output must not touch the namesake
